@@ -338,7 +338,27 @@ impl<'a> HistGen<'a> {
                 return op;
             }
             let op = match self.rng.below(20) {
-                0..=3 => Some(GitOp::Create { path: self.new_path(false) }),
+                0..=3 => {
+                    // one creation in ten is the case twin of an existing file (`Makefile` next to `makefile`)
+                    let twin = if self.rng.chance(1, 10) {
+                        let cands: Vec<String> = wt.iter().filter(|p| !p.ends_with(".big") && !p.ends_with("dirlink") && !self.protected.contains(*p)).cloned().collect();
+                        if cands.is_empty() {
+                            None
+                        } else {
+                            let p = cands[self.rng.below(cands.len())].clone();
+                            let (d, f) = p.rsplit_once('/').map(|(a, b)| (a.to_string(), b.to_string())).unwrap_or((String::new(), p.clone()));
+                            let swapped: String = f.chars().map(|c| if c.is_ascii_lowercase() { c.to_ascii_uppercase() } else if c.is_ascii_uppercase() { c.to_ascii_lowercase() } else { c }).collect();
+                            let t = if d.is_empty() { swapped.clone() } else { format!("{}/{}", d, swapped) };
+                            if swapped != f && !self.model.wt.contains_key(&t) && !self.model.index.contains_key(&t) && !self.model.head().contains_key(&t) { Some(t) } else { None }
+                        }
+                    } else {
+                        None
+                    };
+                    match twin {
+                        Some(t) => Some(GitOp::Create { path: t }),
+                        None => Some(GitOp::Create { path: self.new_path(false) }),
+                    }
+                }
                 4..=6 => {
                     let kind = self.rng.below(10);
                     let plain: BTreeSet<String> = wt.iter().filter(|p| !p.ends_with("dirlink")).cloned().collect();
